@@ -11,6 +11,7 @@ import (
 	"encoding/json"
 	"reflect"
 	"sort"
+	"unsafe"
 )
 
 // verifExtras renders every plain-valued field of a state struct that the
@@ -131,12 +132,7 @@ func verifDump(s State, extras bool) map[string]interface{} {
 		}
 		out["terms"] = terms
 		out["rules"] = verifDumpPI(st.RuleIndex)
-		cr := make([]string, 0, len(st.cachedRules))
-		for id := range st.cachedRules {
-			cr = append(cr, id)
-		}
-		sort.Strings(cr)
-		out["cached"] = cr
+		out["cached"] = verifCachedIds(st)
 		out["loaded"] = st.Loaded
 		if x := verifExtras(st, map[string]bool{"Name": true, "IdToFact": true, "FactIndex": true, "RuleIndex": true, "Loaded": true, "cachedRules": true}); extras && len(x) > 0 {
 			out["extra"] = x
@@ -148,12 +144,7 @@ func verifDump(s State, extras bool) map[string]interface{} {
 			facts[id] = map[string]interface{}{"m": rf.M, "js": string(rf.JS)}
 		}
 		out["facts"] = facts
-		cr := make([]string, 0, len(st.cachedRules))
-		for id := range st.cachedRules {
-			cr = append(cr, id)
-		}
-		sort.Strings(cr)
-		out["cached"] = cr
+		out["cached"] = verifCachedIds(st)
 		if x := verifExtras(st, map[string]bool{"Name": true, "Facts": true, "cachedRules": true}); extras && len(x) > 0 {
 			out["extra"] = x
 		}
@@ -204,13 +195,43 @@ func VerifFactIds(s State) []string {
 
 // VerifCachedRule exposes a cached compiled rule (nil when absent).
 func VerifCachedRule(s State, id string) *Rule {
-	switch st := s.(type) {
-	case *IndexedState:
-		return st.cachedRules[id]
-	case *LinearState:
-		return st.cachedRules[id]
+	m := verifCachedRulesField(s)
+	if !m.IsValid() || m.Kind() != reflect.Map || m.Type().Key().Kind() != reflect.String {
+		return nil
 	}
-	return nil
+	v := m.MapIndex(reflect.ValueOf(id))
+	if !v.IsValid() {
+		return nil
+	}
+	r, _ := v.Interface().(*Rule)
+	return r
+}
+
+// verifCachedRulesField reaches the per-state cache of compiled rules by name, so
+// that a change which moves or removes that private field still builds under the
+// harness (the cache then simply reads as empty) instead of ending in a tooling error.
+func verifCachedRulesField(s interface{}) reflect.Value {
+	v := reflect.ValueOf(s)
+	if v.Kind() != reflect.Ptr || v.IsNil() || v.Elem().Kind() != reflect.Struct {
+		return reflect.Value{}
+	}
+	f := v.Elem().FieldByName("cachedRules")
+	if !f.IsValid() || !f.CanAddr() {
+		return reflect.Value{}
+	}
+	return reflect.NewAt(f.Type(), unsafe.Pointer(f.UnsafeAddr())).Elem()
+}
+
+func verifCachedIds(s interface{}) []string {
+	cr := []string{}
+	m := verifCachedRulesField(s)
+	if m.IsValid() && m.Kind() == reflect.Map && m.Type().Key().Kind() == reflect.String {
+		for _, k := range m.MapKeys() {
+			cr = append(cr, k.String())
+		}
+	}
+	sort.Strings(cr)
+	return cr
 }
 
 // VerifBreakerState exposes an OutboundBreaker's window for state hashing.
